@@ -1,12 +1,16 @@
 """C20 — a table object stays valid and leak-free across any history, even failed calls.
 
 Proof: PsV/Props/C20.lean (C20_ownership_inv, C20_ledger_balanced, C20_ledger_empty_after_destroy,
-C20_failed_op_unchanged_or_empty, C20_moved_from_empty about `Lifecycle.step Cfg.repaired`; decided witnesses
-C20_asIs_* and C20_asIs_partial for the snapshot code).
-Tie: harness/c20_harness.cpp runs random histories (<= 25 ops, 3 object slots, valid and invalid arguments) on
+C20_failed_op_unchanged_or_empty, C20_moved_from_empty about `Lifecycle.step Cfg.repaired`; C20_anyCfg_* about
+`Lifecycle.step c` for every configuration under per-call conditions; C20_head_* about `Cfg.head`, the configuration
+the driver runs; decided witnesses C20_asIs_* / C20_head_* for the defects).
+Tie: harness/c20_harness.cpp runs random histories (<= 25 ops, 3 object slots, valid and invalid arguments, including
+the stacking constructor, fits whose GLAM step fails and writes which hit an I/O error) on
 splinetable<CountingAlloc> built from the working tree, every position of one injected std::bad_alloc and every
 stage of a failing read; after every call the result, the allocator event sequence, the abstract state of every
 object and the ledger totals must equal what `psvdriver C20` (the same Lean definitions) computes.
+PSV_C20_CFG=head (default: /repo as it is) | repaired (a tree which also has fixes/C20-13..15) selects the configuration
+on both sides.
 Oracle (independent of the model): ownership invariant on the real pointers, failed call => content digest
 unchanged or object empty, moved-from object empty, no bad release, ledger empty at the end, no sanitizer /
 LeakSanitizer report."""
@@ -15,7 +19,43 @@ import psvlib
 
 OPNAMES = {"C": "construct", "F": "construct_from_file", "R": "read_fits", "M": "read_fits_mem", "T": "fit", "W": "write_key",
            "K": "remove_key", "G": "read_key", "V": "convolve", "P": "permuteDimensions", "X": "move_construct",
-           "A": "move_assign", "E": "operator==", "O": "write_fits", "Q": "write_fits_mem", "D": "destroy", "Z": "destroy_all"}
+           "A": "move_assign", "E": "operator==", "O": "write_fits", "Q": "write_fits_mem", "D": "destroy", "Z": "destroy_all",
+           "Y": "construct_by_stacking"}
+CFG = os.environ.get("PSV_C20_CFG", "head")
+# base signatures which are a class of their own (not refined by the tags of a shrunk history)
+STABLE = {"construct_by_stacking:no-extents", "construct_by_stacking:crash:unusable-arguments", "construct_by_stacking:alloc-failure-leak",
+          "permuteDimensions:crash:null-extents-after-stacking", "convolve:crash:null-extents-after-stacking",
+          "extent_accessors:crash:null-extents-after-stacking", "write_fits_mem:failed-write-leaks-buffer"}
+PROBES = [  # (probe, signature when it shows the defect, text)
+    ("stack-then-permute", "permuteDimensions:crash:null-extents-after-stacking", "s = splinetable({&a,&b,&c},{0,1,2},2); s.permuteDimensions({1,0})"),
+    ("stack-then-convolve", "convolve:crash:null-extents-after-stacking", "s = splinetable({&a,&b,&c},{0,1,2},2); s.convolve(0,k,3)"),
+    ("stack-then-extent", "extent_accessors:crash:null-extents-after-stacking", "s = splinetable({&a,&b,&c},{0,1,2},2); s.lower_extent(0)"),
+    ("stack-alloc-failure", "construct_by_stacking:alloc-failure-leak", "splinetable({&a,&b,&c},{0,1,2},2) with std::bad_alloc at each of its allocations in turn"),
+    ("write-mem-failure", "write_fits_mem:failed-write-leaks-buffer", "write_fits_mem() with a cfitsio output step reporting an error"),
+    ("stack-single-table", "construct_by_stacking:crash:unusable-arguments", "splinetable({&a},{0},2)"),
+    ("stack-mismatched-shapes", "construct_by_stacking:crash:unusable-arguments", "splinetable({&b,&a,&b},{0,1,2},2) with a smaller than b"),
+    ("stack-empty-table", "construct_by_stacking:crash:unusable-arguments", "splinetable({&a,&e,&a},{0,1,2},2) with e empty"),
+]
+
+
+def local_known():
+    """findings recorded in integration/C20.json (the integrator copies them to known_findings.json, which this
+    property must not edit); a listed signature is announced as KNOWN-FINDING instead of VIOLATION"""
+    try:
+        return {k["signature"]: k for k in json.load(open(os.path.join(psvlib.VERIF, "integration", "C20.json"))).get("known_findings", []) if k.get("property") == "C20"}
+    except Exception:
+        return {}
+
+
+def report(ctx, sig, replay, what):
+    if any(k["signature"] == sig for k in ctx.known_findings()): return ctx.report(sig, replay, what)
+    k = local_known().get(sig)
+    if k is None: return ctx.report(sig, replay, what)
+    if sig not in ctx._c20_printed:
+        ctx._c20_printed.add(sig)
+        print("KNOWN-FINDING: property=C20 %s" % k["what"], flush=True)
+    ctx.known += 1
+    return False
 
 
 def canon_events(ev):
@@ -30,7 +70,10 @@ def canon_events(ev):
 
 
 def build(ctx):
-    kw = dict(mode="san", defines=["PHOTOSPLINE_INCLUDES_SPGLAM"], repo_c=psvlib.FITTER_C, libs=psvlib.FITTER_LIBS)
+    # -rdynamic: libcfitsio must bind fwrite / its own entry points to the interposed definitions in the executable;
+    # --wrap: the call of glamfit_complex inside fit() goes through the harness (injected GLAM failure)
+    kw = dict(mode="san", defines=["PHOTOSPLINE_INCLUDES_SPGLAM"], repo_c=psvlib.FITTER_C, libs=psvlib.FITTER_LIBS,
+              extra=["-rdynamic", "-Wl,--wrap=glamfit_complex"])
     exe = ctx.compile("c20", ["c20_harness.cpp"], **kw)
     if exe: return exe, True
     kw["defines"] = kw["defines"] + ["PSV_NO_REMOVE_KEY"]
@@ -41,7 +84,12 @@ def build(ctx):
 def run_harness(ctx, exe, tag, first, n, extra_env=None, timeout=1500):
     d = os.path.join(ctx.scratch, "w_" + tag); os.makedirs(d, exist_ok=True)
     cases, impl, stats = [os.path.join(d, x) for x in ("cases.txt", "impl.txt", "stats.json")]
-    env = {"ASAN_OPTIONS": "detect_leaks=1:abort_on_error=0", "LSAN_OPTIONS": "print_suppressions=0:exitcode=0"}
+    env = {"ASAN_OPTIONS": "detect_leaks=1:abort_on_error=0", "LSAN_OPTIONS": "print_suppressions=0:exitcode=0", "PSV_C20_CFG": CFG}
+    if getattr(ctx, "_c20_memleak", False):
+        # the probe has shown (and reported) that a failed write_fits_mem abandons its buffer; only what is allocated
+        # inside write_fits_mem / by cfitsio's mem_truncate (the buffer) is taken out of the leak reports of the history runs
+        sup = os.path.join(ctx.scratch, "lsan.supp"); open(sup, "w").write("leak:mem_truncate\nleak:write_fits_mem\n")
+        env["LSAN_OPTIONS"] += ":suppressions=" + sup
     if extra_env: env.update(extra_env)
     rc, out, err = ctx.run([exe, cases, impl, stats, str(first), str(n), d], timeout=timeout, env=env)
     return rc, err, cases, impl, stats
@@ -59,8 +107,7 @@ def parse(cases, impl, model):
         m = ml[n] if n < len(ml) else None
         if c.startswith("S "):
             cur = {"head": c, "rows": [], "pending": None, "leak": False}; variants.append(cur); continue
-        if c == "Y":
-            variants.append({"head": "Y", "rows": [], "pending": None, "leak": False, "stack": i}); cur = None; continue
+        if c.startswith("CFG"): continue
         if c.startswith("LEAK"):
             if cur: cur["leak"] = True
             continue
@@ -77,10 +124,11 @@ def fields(line):
 
 def slot_ok(s):
     if s == "-": return None
-    ndim, naux, core, per, arr = s.split(",")
+    ndim, naux, core, per, arr, ext = s.split(",")
     if ndim == "0":
-        if (naux, core, per, arr) != ("0", "n", "0", "0"): return "ndim=0 but storage is owned (naux=%s core=%s periods=%s aux=%s)" % (naux, core, per, arr)
+        if (naux, core, per, arr, ext) != ("0", "n", "0", "0", "0"): return "ndim=0 but storage is owned (naux=%s core=%s periods=%s aux=%s extents=%s)" % (naux, core, per, arr, ext)
     elif core != "y": return "ndim=%s but arrays are missing (core=%s)" % (ndim, core)
+    elif ext != "1": return "NOEXT ndim=%s but the extents arrays are missing (null): permuteDimensions, convolve, lower_extent and upper_extent read through them" % ndim
     return None
 
 
@@ -100,7 +148,13 @@ def check_variant(v):
         if res == "inconsistent": viol.append(("%s:inconsistent-answers" % name, "%s gives contradictory answers" % name, k))
         for sl, s in enumerate(st.split()):
             why = slot_ok(s)
+            if why and why.startswith("NOEXT") and tag != "Y": continue   # reported where the object was made
+            if why and why.startswith("NOEXT"): viol.append(("%s:no-extents" % name, "after %s (%s) object %d violates the ownership invariant: %s" % (name, res, sl, why[6:]), k)); break
             if why and not own_bad: own_bad = True; viol.append(("%s:ownership" % name, "after %s (%s) object %d violates the ownership invariant: %s" % (name, res, sl, why), k)); break
+        if res == "avoided":
+            viol.append(("%s:crash:%s" % (name, "unusable-arguments" if tag == "Y" else "null-extents-after-stacking"),
+                         "%s was not executed: it %s (undefined behaviour that would end the process; demonstrated by the probes)" % (name, "would be given tables it cannot digest, which it examines by assert only" if tag == "Y" else "would read through the null extents pointer of a table made by the stacking constructor"), k))
+        if res == "nofire": tie.append((k, c, i, m, "the injected output failure did not make the call throw"))
         if extra[0] == "CHANGED": viol.append(("%s:failed-call-changed-object" % name, "%s threw but left the object neither unchanged nor empty" % name, k))
         if tag in "XA" and res == "ok" and extra[1] not in ("-", "empty"): viol.append(("%s:moved-from-not-empty" % name, "after %s the source object is not empty (%s)" % (name, extra[1]), k))
         b = int(tot.split()[2])
@@ -111,7 +165,7 @@ def check_variant(v):
             viol.append(("end:leak", "after destroying every object %s block(s) / %s byte(s) obtained from the allocator were never returned" % tuple(tot.split()[:2]), k))
         # ---- correspondence
         if fm is None: tie.append((k, c, i, m, "no model line")); continue
-        same = (res == fm[0] or (tag == "E" and fm[0] == "ok" and res in ("tt", "ff"))) and canon_events(ev) == canon_events(fm[1]) and st == fm[2] and tot == fm[3]
+        same = (res == fm[0] or (tag == "E" and fm[0] == "ok" and res in ("tt", "ff")) or (res == "avoided" and fm[0] == "crash")) and canon_events(ev) == canon_events(fm[1]) and st == fm[2] and tot == fm[3]
         if not same: tie.append((k, c, i, m, "differs"))
         if len(fm) > 4 and fm[4] != "1": tie.append((k, c, i, m, "model invariant self-check failed"))
     return viol, tie
@@ -159,12 +213,41 @@ def crash_signature(err, v):
     return "%s:crash:%s" % (OPNAMES.get(op, op), kind)
 
 
+def run_probes(ctx, exe):
+    """known-defect demonstrations, each in a process of its own (they end in a sanitizer report / assertion when the
+    defect is there); a probe that runs through shows the defect is gone"""
+    d = os.path.join(ctx.scratch, "probes"); os.makedirs(d, exist_ok=True)
+    out = {}
+    for name, sig, text in PROBES:
+        leakprobe = name == "write-mem-failure"
+        rc, so, err = ctx.run([exe, "probe", name, d], timeout=120, env={"ASAN_OPTIONS": "detect_leaks=%d:abort_on_error=0" % leakprobe, "LSAN_OPTIONS": "print_suppressions=0:exitcode=0", "PSV_C20_CFG": CFG})
+        m = re.search(r"PROBE \S+ (\S+) (\d+) (\d+) (\d+)", so)
+        why = None
+        if leakprobe and m and "LeakSanitizer" in err and re.search(r"mem_truncate|mem_create|write_fits_mem", err):
+            lk = re.search(r"SUMMARY: AddressSanitizer: (\d+) byte\(s\) leaked in (\d+) allocation", err)
+            why = "the output buffer is never freed when the write fails (the catch block rethrows without free(buf)): %s byte(s) in %s allocation(s) after 4 failed calls" % (lk.groups() if lk else ("?", "?"))
+            ctx._c20_memleak = True
+        elif m is None:
+            e = re.search(r"(ERROR: AddressSanitizer: [\w-]+|runtime error: [^\n]{0,80}|Assertion [^\n]{0,80} failed)", err)
+            why = "the process ended with: %s (rc=%d)" % (e.group(1) if e else "no result line", rc)
+        elif m.group(1).startswith("leaked") or m.group(1) in ("nothrow", "wrong") or m.group(4) != "0":
+            why = "result %s, %s block(s) / %s byte(s) obtained from the allocator never returned, %s bad release(s)" % m.groups()
+        elif name.startswith("stack-") and name not in ("stack-then-permute", "stack-then-convolve", "stack-then-extent", "stack-alloc-failure") and m.group(1) != "threw":
+            why = "unusable arguments were accepted silently (result %s)" % m.group(1)
+        out[name] = why or "clean"
+        if why: report(ctx, sig, {"probe": name, "call": text, "replay_cmd": "c20_harness probe %s <dir> (built by bin/props/C20.py)" % name},
+                       "C20 oracle (probe %s): %s: %s" % (name, text, why))
+    ctx.coverage["probes"] = out
+
+
 def run(ctx, only_seq=None):
+    ctx._c20_printed = set(); ctx._c20_memleak = False
     ctx.audit()
     nseq = 30 if ctx.tier == "quick" else 240
     exe, has_rk = build(ctx)
     if not exe:
         ctx.tie_ok = False; ctx.broken.append({"kind": "harness build failed"}); return
+    run_probes(ctx, exe)
     if not has_rk:
         ctx.report("remove_key:does-not-compile", {"what": "splinetable<Alloc>::remove_key cannot be instantiated", "replay_cmd": "python3 bin/check.py C20"},
                    "remove_key does not compile when instantiated (tmp_aux has the wrong pointer type); see C16-4")
@@ -180,12 +263,6 @@ def run(ctx, only_seq=None):
         if os.path.exists(stats):
             for k, v in json.load(open(stats)).items(): stats_all[k] = stats_all.get(k, 0) + v
         for v in variants:
-            if v["head"] == "Y":
-                st = (v.get("stack") or "STACK missing 0 0 0").split()
-                if st[1] != "ok" or st[2:4] != ["0", "0"] or st[4] != "0":
-                    ctx.report("stacking_constructor:leak", {"history": "a(f), b(f), c(f); splinetable s({&a,&b,&c},{0,1,2},2); destroy all", "impl": " ".join(st)},
-                               "C20 oracle: after the stacking constructor and destruction of every object %s block(s) / %s byte(s) from the allocator were never returned (result %s): the two extrapolated padding tables are never deleted" % (st[2], st[3], st[1]))
-                continue
             viol, tie = check_variant(v)
             evals += len(v["rows"])
             prev_state = ""
@@ -200,11 +277,12 @@ def run(ctx, only_seq=None):
             for base, text, k in viol:
                 if base in reported: continue
                 reported.add(base)
-                sv = shrink(ctx, exe, v["head"], base, os.path.dirname(cases)) if not base.startswith("lsan:") else None
+                known_class = base in STABLE
+                sv = shrink(ctx, exe, v["head"], base, os.path.dirname(cases)) if not (base.startswith("lsan:") or known_class) else None
                 hist = history(sv) if sv else history(v, k)
                 tags = "".join(h.split()[0] for h in hist if h.split()[0] != "Z")
                 sig = base + ":" + tags if sv else base
-                ctx.report(sig, {"variant": v["head"], "history": hist, "impl": [i for _, i, _ in (sv or v)["rows"]][-6:],
+                report(ctx, sig, {"variant": v["head"], "history": hist, "impl": [i for _, i, _ in (sv or v)["rows"]][-6:],
                                  "replay_cmd": "VERIF_SEED=%d PSV_ONLY='%s' (see bin/props/C20.py shrink)" % (ctx.seed, " ".join(v["head"].split()[1:]))},
                            "C20 oracle: " + text + " | minimal history: " + " ; ".join(hist))
             for k, c, i, m, why in tie:
@@ -217,7 +295,7 @@ def run(ctx, only_seq=None):
         if rc == 0 and "ERROR: LeakSanitizer" in err and not any(x.startswith("lsan:") for x in reported):
             fn = [x for x in re.findall(r"#\d+ 0x[0-9a-f]+ in ([^\n(]+)", err) if not re.search(r"operator new|interceptor|malloc|allocate", x)]
             sig = "lsan:" + (fn[0].strip().split("::")[-1] if fn else "unknown"); reported.add(sig)
-            ctx.report(sig, {"stderr": err[-3000:]}, "C20 oracle: LeakSanitizer at exit: memory obtained outside the counting allocator was never released: " + err[-700:])
+            report(ctx, sig, {"stderr": err[-3000:]}, "C20 oracle: LeakSanitizer at exit: memory obtained outside the counting allocator was never released: " + err[-700:])
         if rc == 0: break
         # the harness died (sanitizer abort, signal, timeout): a result, reported with the offending history
         crashes += 1
@@ -228,7 +306,7 @@ def run(ctx, only_seq=None):
             sv = shrink(ctx, exe, last["head"], sig, os.path.dirname(cases)) if last else None
             hist = (history(sv) + [sv["pending"]]) if sv and sv.get("pending") else ((history(last) + [last["pending"] or "?"]) if last else [])
             tags = "".join(h.split()[0] for h in hist)
-            ctx.report(sig + ":" + tags, {"variant": last["head"] if last else None, "history": hist, "stderr": err[-2500:], "harness_rc": rc},
+            report(ctx, sig + ":" + tags, {"variant": last["head"] if last else None, "history": hist, "stderr": err[-2500:], "harness_rc": rc},
                        "C20: harness aborted (rc=%d) in %s | minimal history: %s | %s" % (rc, sig, " ; ".join(hist), (re.search(r"(ERROR: AddressSanitizer[^\n]*|runtime error[^\n]*)", err) or [""])[0]))
         first = int(last["head"].split()[1]) + 1 if last else end
     ctx.coverage["evaluations"] = evals
@@ -237,13 +315,21 @@ def run(ctx, only_seq=None):
                             "std::bad_alloc injected at every allocation position, and with every read replaced by each failing-read stage; an evaluation is one executed call "
                             "compared with the model; non-trivial = the call moved memory through the allocator or threw; distinct = distinct (call line, state of all objects before)")
     ctx.coverage["input_distribution"] = stats_all
+    # the failure classes the tie is claimed to cover must actually have been produced
+    need = {"op_Y": "stacking constructor calls", "glam_failures": "fits whose GLAM step failed", "write_fits_io_failures": "write_fits calls hitting an I/O error",
+            "write_fits_mem_io_failures": "write_fits_mem calls hitting an I/O error"}
+    for k, what in need.items():
+        if crashes == 0 and stats_all.get(k, 0) == 0:
+            ctx.tie_ok = False; ctx.broken.append({"kind": "coverage", "why": "no %s were produced by the harness" % what})
     ctx.coverage["tie_mismatches"] = tie_n
     ctx.coverage["harness_crashes"] = crashes
     ctx.assumptions += [
-        "model = code with fixes/C20-1..C20-11 and C16-4 applied (C20-11 stands in for the C07 read guard); on a tree without them the oracle reports the defects",
+        "model configuration run: Cfg.%s = code with fixes/C20-1..C20-12 and C16-4 applied (C20-11 stands in for the C07 read guard)%s; on a tree without them the oracle reports the defects" % (CFG, " plus the proposed C20-13..15" if CFG == "repaired" else ", stacking constructor as it is in /repo (three known findings: no extents, leak on allocation failure, unusable arguments are undefined behaviour)"),
         "allocation failures are injected only through the Alloc template parameter; plain new[]/malloc temporaries (convolve, permuteDimensions, fit, cfitsio, CHOLMOD) are not failed, their leaks are watched by LeakSanitizer",
-        "GLAM failure inside fit and I/O failure inside write_fits(_mem) are in the model/theorems but not produced by the harness (write failures: C08)",
-        "the stacking constructor splinetable(vector<splinetable*>, ...) is outside the modelled operation set",
+        "GLAM failure is injected by redirecting the call of glamfit_complex inside fit() (-Wl,--wrap) to a wrapper returning 1; no input was found that makes the real solver report failure (zero or NaN weights return success)",
+        "output failures are injected at the cfitsio entry points write_fits_core / write_fits(_mem) call (ffcrim, ffppx, ffpky, ffclos), at libc fwrite (ENOSPC) and by a path in a missing directory; what is left on disk is C08's subject",
+        "Cfg.head: calls which are undefined behaviour in /repo as it is (convolve / valid permuteDimensions on a table made by the stacking constructor, stacking constructor with unusable arguments) are not executed inside the history runs (result `avoided`, the model must say `crash`); each is executed once in a process of its own (probes); allocation-failure positions inside the stacking constructor are run by a probe only (every one of them leaks)",
+        "stacking constructor: inputs are live tables of one shape with 1-2 dimensions and <= 400 coefficients, 2-3 of them (repetition allowed), stackOrder 1-2",
         "aux values contain no quote characters and no embedded NUL (quote handling: C16); tables are well-formed (nknots >= 2*order+2)",
         "deallocate(nullptr, n) calls made by write_key's failure path are tolerated by the counting allocator and counted (evidence: null_deallocs)",
     ]
